@@ -291,31 +291,44 @@ static void printObs(Out& o, long failedAt, const std::string& verdict, const Se
 }
 
 // ---------------------------------------------------------------- a run of several tests with the MockSupportPlugin installed
-// ":T step*" per test.  The tests are UtestShells of a private TestRegistry that has the real MockSupportPlugin installed and are run
+// ":T step* [:D tdstep*]" per test (tdstep = [:s n] :chk | [:s n] :clr: the test's teardown).  The tests are UtestShells of a private TestRegistry that has the real MockSupportPlugin installed and are run
 // by TestRegistry::runAllTests with ONE TestResult; the body of a test interprets its steps with the library's default mock
 // failure reporter (it fails the current test and leaves it).  Observed per test: every failure that reaches the TestResult's
 // output while the test runs (body: the failing operation / the test's own check; after the body: what the plugin's end-of-test
 // check delivered), and TestResult::getFailureCount() when the test ended.
 struct TestScript {
-    Toks t; Session S; bool inBody = false; bool completed = false;
-    std::vector<std::string> bodyMsgs, postMsgs; std::vector<unsigned long long> bodyScope; size_t total = 0; bool ended = false;
-    TestScript() : S(nullptr, nullptr) {}
+    Toks t; Session S; int phase = 0;            // 0 = not started / after the teardown, 1 = body, 2 = teardown
+    Toks td; Session TD;                         // the teardown section (":D ...") and its interpreter session
+    std::vector<std::string> bodyMsgs, tdMsgs, postMsgs; std::vector<unsigned long long> bodyScope, tdScope; std::vector<long> tdIdx;
+    size_t total = 0; bool ended = false;
+    TestScript() : S(nullptr, nullptr), TD(nullptr, nullptr) {}
 };
 static TestScript* gCur = nullptr;
 class ScriptedUtest : public Utest {
 public:
     explicit ScriptedUtest(TestScript* d) : d_(d) {}
-    void testBody() CPPUTEST_OVERRIDE { d_->inBody = true; execOps(d_->t, d_->S); d_->completed = true; }
-    void teardown() CPPUTEST_OVERRIDE { d_->inBody = false; }
+    void testBody() CPPUTEST_OVERRIDE { d_->phase = 1; execOps(d_->t, d_->S); }
+    // the teardown of the test: runs whether or not the body was left at a failure, with the same (default) mock failure reporter
+    void teardown() CPPUTEST_OVERRIDE
+    {
+        d_->phase = 2;                            // ends when the post actions begin (PhasePlugin), however the teardown is left
+        execOps(d_->td, d_->TD);
+    }
 private:
     TestScript* d_;
 };
 class ScriptedShell : public UtestShell {
 public:
     ScriptedShell(TestScript* d, const char* name) : UtestShell("verif", name, "scenario.cpp", 1), d_(d) {}   // the name is not copied
-    Utest* createTest() CPPUTEST_OVERRIDE { gCur = d_; d_->S.shell = this; return new ScriptedUtest(d_); }
+    Utest* createTest() CPPUTEST_OVERRIDE { gCur = d_; d_->S.shell = this; d_->TD.shell = this; return new ScriptedUtest(d_); }
 private:
     TestScript* d_;
+};
+// installed BEFORE the MockSupportPlugin, so that its post action runs first (post actions run from the end of the chain): whatever
+// is delivered from now on was delivered by the plugins' post actions, not by the teardown
+struct PhasePlugin : TestPlugin {
+    PhasePlugin() : TestPlugin("VerifPhase") {}
+    void postTestAction(UtestShell&, TestResult&) CPPUTEST_OVERRIDE { if (gCur) gCur->phase = 0; }
 };
 struct RunOutput : TestOutput {
     void printBuffer(const char*) CPPUTEST_OVERRIDE {}
@@ -323,24 +336,32 @@ struct RunOutput : TestOutput {
     void printFailure(const TestFailure& f) CPPUTEST_OVERRIDE
     {
         if (!gCur) return;
-        if (gCur->inBody) { gCur->bodyMsgs.push_back(f.getMessage().asCharString()); gCur->bodyScope.push_back(curScope); }
+        if (gCur->phase == 1) { gCur->bodyMsgs.push_back(f.getMessage().asCharString()); gCur->bodyScope.push_back(curScope); }
+        else if (gCur->phase == 2) { gCur->tdMsgs.push_back(f.getMessage().asCharString()); gCur->tdScope.push_back(curScope); gCur->tdIdx.push_back(gCur->TD.idx); }
         else gCur->postMsgs.push_back(f.getMessage().asCharString());
     }
-    void printCurrentTestEnded(const TestResult& r) CPPUTEST_OVERRIDE { if (gCur) { gCur->total = r.getFailureCount(); gCur->ended = true; } }
+    void printCurrentTestEnded(const TestResult& r) CPPUTEST_OVERRIDE { if (gCur) { gCur->total = r.getFailureCount(); gCur->ended = true; gCur->phase = 0; } }
 };
 
 static void runOfTests(Toks& t, Out& o)
 {
     std::deque<TestScript> scripts;
+    bool withTeardown = false;
     while (!t.end()) {
         if (t.next() != ":T") { fprintf(stderr, "expected :T\n"); exit(3); }
         scripts.emplace_back();
-        while (!t.end() && t.peek() != ":T") scripts.back().t.t.push_back(t.next());
+        while (!t.end() && t.peek() != ":T" && t.peek() != ":D") scripts.back().t.t.push_back(t.next());
+        if (!t.end() && t.peek() == ":D") {
+            withTeardown = true; t.next();
+            while (!t.end() && t.peek() != ":T") scripts.back().td.t.push_back(t.next());
+        }
     }
     mock().clear();
     mock().setMockFailureStandardReporter(nullptr);
     {
         TestRegistry registry;
+        PhasePlugin phasePlugin;
+        registry.installPlugin(&phasePlugin);
         MockSupportPlugin plugin("MockSupportPlugin");
         registry.installPlugin(&plugin);
         std::deque<std::string> names; std::deque<ScriptedShell> shells;
@@ -355,7 +376,7 @@ static void runOfTests(Toks& t, Out& o)
     }
     mock().clear();
     mock().setMockFailureStandardReporter(nullptr);
-    o << ":run"; o << hx(scripts.size());
+    o << (withTeardown ? ":runt" : ":run"); o << hx(scripts.size());
     for (auto& sc : scripts) {
         // the first failure of the body: the test's own check, or the mock failure of the operation in progress; anything the body
         // delivered beyond it is shown with the end-of-test failures (and is one failure too many)
@@ -370,6 +391,12 @@ static void runOfTests(Toks& t, Out& o)
         curScope = 0;
         for (auto& m : sc.postMsgs) sc.S.posts.push_back(classify(m));
         o << (own ? "1" : "0"); o << (sc.ended ? hx(sc.total) : std::string("?"));
+        if (withTeardown) {
+            // every failure delivered while the teardown ran: index of the teardown operation in progress + diagnosis
+            o << hx(sc.tdMsgs.size());
+            for (size_t k = 0; k < sc.tdMsgs.size(); k++) { curScope = sc.tdScope[k]; o << hx((unsigned long long)sc.tdIdx[k]); o << classify(sc.tdMsgs[k]); }
+            curScope = 0;
+        }
         printObs(o, failedAt, verdict, sc.S);
     }
     o.flush();
